@@ -204,10 +204,11 @@ void harness(void)
     uint64_t csz[NCH];
     for (int c = 0; c < NCH; ++c) csz[c] = (CHDR + mul_small(NN, ns) + 7) & ~UINT64_C(7);
     uint64_t gap = GAP ? 16 : 0, L, L2;
-    if (LAY == 0)      { L = HEAP_BASE; L2 = L + LSIZE; CH[0] = L2 + LSIZE; CH[1] = CH[0] + csz[0] + gap; }
-    else if (LAY == 1) { CH[0] = HEAP_BASE; L = CH[0] + csz[0]; L2 = L + LSIZE; CH[1] = L2 + LSIZE; }
-    else               { CH[0] = HEAP_BASE; CH[1] = CH[0] + csz[0] + gap; L = CH[1] + csz[1]; L2 = L + LSIZE; }
-    ASSUME(IN_HEAP(L, LSIZE) && IN_HEAP(L2, LSIZE) && IN_HEAP(CH[0], csz[0]) && IN_HEAP(CH[1], csz[1]));
+    if (LAY == 0)      { L = HEAP_BASE; L2 = L + LSIZE; CH[0] = L2 + LSIZE; for (int c = 1; c < NCH; ++c) CH[c] = CH[c - 1] + csz[c - 1] + gap; }
+    else if (LAY == 1) { CH[0] = HEAP_BASE; L = CH[0] + csz[0]; L2 = L + LSIZE; CH[1] = L2 + LSIZE; for (int c = 2; c < NCH; ++c) CH[c] = CH[c - 1] + csz[c - 1] + gap; }
+    else               { CH[0] = HEAP_BASE; for (int c = 1; c < NCH; ++c) CH[c] = CH[c - 1] + csz[c - 1] + gap; L = CH[NCH - 1] + csz[NCH - 1]; L2 = L + LSIZE; }
+    ASSUME(IN_HEAP(L, LSIZE) && IN_HEAP(L2, LSIZE));
+    for (int c = 0; c < NCH; ++c) ASSUME(IN_HEAP(CH[c], csz[c]));
     g_L = L;
 
     uint64_t wa = HEAP_BASE + (uint64_t)nondet_u8(); ASSUME(IN_HEAP(wa, 1));
